@@ -48,6 +48,9 @@ def run(history, timeout):
                 clk.t += step[1]
             elif isinstance(step, tuple) and step[0] == "jump":
                 clk.off += step[1]
+            elif isinstance(step, tuple) and step[0] == "set":
+                # a timeout change (AE/Association setters reach running timers): applies to the time already elapsed
+                tm.timeout = timeout = step[1]
             if g_start is None or timeout is None:
                 want_exp, want_rem = False, (1 if timeout is None else timeout)
             else:
@@ -63,11 +66,11 @@ def run(history, timeout):
     return None
 
 
-steps = ["start", "stop", "restart", ("adv", 0.4), ("adv", 3.0), ("jump", 3600.0), ("jump", -3600.0)]
+steps = ["start", "stop", "restart", ("adv", 0.4), ("adv", 3.0), ("jump", 3600.0), ("jump", -3600.0), ("set", 1.0), ("set", 5.0)]
 for timeout in (2.0, None, 0.0):
     for n in (1, 2, 3, 4):
         for hist in itertools.product(steps, repeat=n):
             bad = run(list(hist), timeout)
             if bad:
                 done(True, input=bad["history"], timeout=bad["timeout"], observed=bad["observed"], expected=bad["expected"])
-done(False, note="no disagreement in all histories of length <= 4 over start/stop/restart/advance/wall-jump")
+done(False, note="no disagreement in all histories of length <= 4 over start/stop/restart/advance/wall-jump/timeout-change")
